@@ -125,6 +125,66 @@ def shard(idx, n, tier):
     return res
 
 
+def box_exprs():
+    """Every width-2 connection expression of depth <= 2 over a 3-bit signal s and a 2-bit signal t (plus references to / slices of
+    the other instance's port), and every width-1 one: the enumerated box of the thorough tier."""
+    S, T = ["sig", "s"], ["sig", "t"]
+    sl = lambda e, i: ["slice", e, i]
+    ones = [sl(S, 0), sl(S, 1), sl(S, 2), sl(S, -1), sl(S, -3), sl(T, 0), sl(T, 1), sl(T, -2), sl(S, [2, None, None]), sl(T, [None, 1, None])]
+    twos = [T, sl(T, [None, None, None]), sl(S, [0, 2, None]), sl(S, [1, 3, None]), sl(S, [-3, -1, None]), sl(S, [None, 2, 1]), sl(S, [1, None, None]),
+            sl(S, [-2, None, None])]
+    atoms = [sl(S, 0), sl(S, 1), sl(S, 2), sl(T, 0), sl(T, 1), sl(S, -1), sl(T, -1)]
+    for a in atoms:
+        for b in atoms:
+            twos.append(["cat", [a, b]])
+    for outer in (["cat", [S, T]], ["cat", [T, S]], ["cat", [sl(S, 1), T, sl(S, [0, 2, None])]]):
+        w = 5
+        for a in range(0, w - 1):
+            twos.append(sl(outer, [a, a + 2, None]))
+        twos.append(sl(outer, [-2, None, None]))
+    for inner in (sl(S, [0, 3, None]), sl(S, [None, None, None])):
+        twos += [sl(inner, [0, 2, None]), sl(inner, [1, 3, None]), sl(inner, [-2, None, None])]
+    twos.append(["cat", [sl(["cat", [S]], [1, 3, None])]])
+    twos.append(["cat", [["cat", [sl(S, 2)]], ["cat", [sl(T, 0)]]]])
+    return ones, twos
+
+
+def box_cases():
+    ones, twos = box_exprs()
+    cell = {"kind": "ext", "name": "X0", "ports": [["a", 2, "in"], ["b", 1, "out"]]}
+
+    def mk(a0, b0, a1, b1):
+        return {"cells": [cell], "bundles": [], "top": 0, "modules": [{"name": "M0", "sigs": [["s", 3, "sig"], ["t", 2, "in"]], "bundles": [], "insts": [
+            {"name": "i0", "of": ["cell", 0], "kind": "inst", "tag": 1, "conns": [["a", a0], ["b", b0]]},
+            {"name": "i1", "of": ["cell", 0], "kind": "inst", "tag": 2, "conns": [["a", a1], ["b", b1]]}]}]}
+    fixed_b0, fixed_b1 = ["slice", ["sig", "s"], 0], ["slice", ["sig", "t"], 1]
+    for a0 in twos:
+        for a1 in twos:
+            yield mk(a0, fixed_b0, a1, fixed_b1)
+        # the second instance's port refers to (a slice of / a concat with) the first one's
+        yield mk(a0, fixed_b0, ["pref", "i0", "a"], fixed_b1)
+        yield mk(a0, fixed_b0, ["cat", [["slice", ["pref", "i0", "a"], [1, 2, None]], ["slice", ["pref", "i0", "a"], [0, 1, None]]]], fixed_b1)
+        yield mk(a0, ["slice", ["pref", "i1", "a"], [0, 1, None]], ["sig", "t"], fixed_b1)
+    for b0 in ones:
+        for b1 in ones:
+            yield mk(["sig", "t"], b0, ["slice", ["sig", "s"], [0, 2, None]], b1)
+        yield mk(["sig", "t"], b0, ["slice", ["sig", "s"], [0, 2, None]], ["pref", "i0", "b"])
+
+
+def box_shard(idx, n):
+    env.setup_paths()
+    import hdl21  # noqa
+    par.server()
+    res = core.Result()
+    for k, spec in enumerate(box_cases()):
+        if k % n != idx:
+            continue
+        spec = dict(spec, features=["box", "slice", "concat"])
+        run_one(res, spec, "box")
+    res.notes["enumerated_box_cases"] += res.evaluations
+    return res
+
+
 def replay(case):
     v = par.in_child(eval_case, case)
     if par.is_exc(v):
@@ -146,4 +206,11 @@ def main(tier):
     env.setup_paths()
     import hdl21  # noqa
     res = par.run_shards(shard, extra=(tier,))
-    return core.finish(PID, LEVEL, tier, res, RULE, ASSUME, replay, t0, shrink_fn=shrink_fn, min_nontrivial=50)
+    extra = {}
+    if tier == "thorough":
+        res.merge(par.run_shards(box_shard))
+        extra["exhaustive_part"] = ("enumerated box (thorough tier): one parent with a 3-bit and a 2-bit signal and two instances of a two-port cell; every "
+                                    "pair of width-2 connection expressions of depth <= 2 (slices in every equivalent index form, concats of bit atoms, slices "
+                                    "of concats and of slices, single-part and nested concats), every pair of width-1 expressions, and references to / slices "
+                                    "of the other instance's port. Complete for that box; everything else is sampled.")
+    return core.finish(PID, LEVEL, tier, res, RULE, ASSUME, replay, t0, shrink_fn=shrink_fn, min_nontrivial=50, extra=extra)
